@@ -394,7 +394,7 @@ def canon_log(log, fw):
         elif k == "abort": out.append((1, []))
         elif k == "lose": out.append((2, []))
         elif k == "sess_open": out.append((3, []))
-        elif k == "sess_msg": out.append((4, [e[1]]))
+        elif k == "sess_msg": out.append((4, [e[1] if isinstance(e[1], int) and not isinstance(e[1], bool) else 0]))   # no publication id: 0
         elif k == "sess_close": out.append((5, [1 if e[1] else 0]))
         elif k == "escaped": out.append((6, [exc_code(e[1])]))
         elif k == "raised": out.append((7, [exc_code(e[1])]))
@@ -591,6 +591,148 @@ def run_ws_shapes(ck, drv):
                         dc(op="drop", ep="c" + tag); ds(op="drop", ep="s" + tag)
     ck.evaluations += n_eval
     ck.log(f"WebSocket delivery shapes (burst / one read per iteration): {n_eval} conversations")
+
+
+# decodable payloads that are not WAMP messages: (label, python object, Coq `raw` term of the envelope spec)
+HELLO_TAIL = ["realm1", {"roles": {"subscriber": {}}}]
+MALFORMED = [
+    ("code-true", [True] + HELLO_TAIL, "RMsg (TBool true) true"),
+    ("code-false", [False] + HELLO_TAIL, "RMsg (TBool false) true"),
+    ("code-float-1.0", [1.0] + HELLO_TAIL, "RMsg TFloat true"),
+    ("code-string-1", ["1"] + HELLO_TAIL, "RMsg TStr true"),
+    ("code-null", [None] + HELLO_TAIL, "RMsg TNull true"),
+    ("code-list", [[1]] + HELLO_TAIL, "RMsg TList true"),
+    ("code-dict", [{"a": 1}] + HELLO_TAIL, "RMsg TDict true"),
+    ("code-negative", [-1] + HELLO_TAIL, "RMsg (TInt (-1)%Z) true"),
+    ("code-zero", [0] + HELLO_TAIL, "RMsg (TInt 0%Z) true"),
+    ("code-unknown-7", [7] + HELLO_TAIL, "RMsg (TInt 7%Z) true"),
+    ("code-unknown-999", [999, 1, 2], "RMsg (TInt 999%Z) true"),
+    ("code-huge", [2 ** 70] + HELLO_TAIL, "RMsg (TInt 1180591620717411303424%Z) true"),
+    ("event-code-true", [True, 1, 350, {}], "RMsg (TBool true) true"),
+    ("hello-too-short", [1], "RMsg (TInt 1%Z) false"),
+    ("event-bad-fields", [36, "x", 350, {}], "RMsg (TInt 36%Z) false"),
+    ("empty-list", [], "REmptyList"),
+    ("not-a-list-dict", {"a": 1}, "RNotList"),
+    ("not-a-list-string", "hello", "RNotList"),
+    ("not-a-list-int", 5, "RNotList"),
+    ("not-a-list-null", None, "RNotList"),
+    ("not-a-list-true", True, "RNotList"),
+    ("control-valid-event", [36, 1, 350, {}], "RMsg (TInt 36%Z) true"),
+]
+
+
+def indep_encode(ser, obj):
+    """the peer's encoder, independent of autobahn's serializers"""
+    import json as _json
+    if ser == "json":
+        return _json.dumps(obj).encode()
+    if ser == "msgpack":
+        import msgpack
+        return msgpack.packb(obj, use_bin_type=True)
+    import cbor2
+    return cbor2.dumps(obj)
+
+
+def run_malformed(ck, drv):
+    """'a WAMP protocol violation closes the transport' over payloads that DECODE fine but are not WAMP messages, between two
+    valid messages, every serializer, all four transport x framework combinations, both roles.  Oracle = the envelope rule of
+    the WAMP message format (non-empty list, integer type code naming a class, acceptable fields): a violation delivers
+    nothing, closes with 1002 (WebSocket; connection dropped when failByDrop) / abort (RawSocket), told once."""
+    rs_cases, ws_cases, n_eval = [], [], 0
+    good = lambda i: [36, 1, i, {}]
+    for ser in ("json", "msgpack", "cbor"):
+        rsid = RS_ID[ser]
+        items = []
+        for label, obj, raw in MALFORMED:
+            try:
+                items.append((label, indep_encode(ser, obj), raw))
+            except (OverflowError, ValueError, TypeError):
+                continue                                   # e.g. msgpack cannot carry 2**70
+        p300, p399 = indep_encode(ser, good(300)), indep_encode(ser, good(399))
+        # ---- RawSocket, batch per framework ----
+        for fw in FWS:
+            jobs, meta = [], []
+            for role in ("server", "client"):
+                for label, payload, raw in items:
+                    frames = [len(x).to_bytes(4, "big") + x for x in (p300, payload, p399)]
+                    hs = bytes([0x7F, 0xF0 | rsid, 0, 0])
+                    jobs.append(dict(op="script", jobs=[
+                        dict(op="new", ep="e", kind="rs", role=role, sers=[ser], max=None, sess={}),
+                        dict(op="feed", ep="e", chunks=[hs.hex()] + [f.hex() for f in frames], env_stop=True),
+                        dict(op="lost", ep="e", clean=False)]))
+                    meta.append((role, label, raw, hs, frames))
+            out = ck.run_impl(DRIVER, {"fw": fw, "jobs": jobs})["results"]
+            for (role, label, raw, hs, frames), o in zip(meta, out):
+                n_eval += 1
+                log = [e for r in o["results"] for e in r["log"]]
+                got = [e[1] for e in log if e[0] == "sess_msg"]
+                closed = [e for e in log if e[0] in ("abort", "lose")]
+                esc = [e for e in log if e[0] == "escaped"]
+                ck.bump(f"malformed/rs/{fw}/{label}")
+                rep = dict(kind="rs-conn", fw=fw, role=role, ser=ser, pos=1, corr=label, split="frames", lost_clean=False, mx=None,
+                           chunks=[hs.hex()] + [f.hex() for f in frames], react={}, log=log)
+                if label.startswith("control"):
+                    if got != [300, 350, 399] or closed or esc:
+                        ck.violation(f"rawsocket.{fw}.{role}/valid-stream-closed", f"valid messages ({ser}): delivered {got}, closed {closed}", rep, True)
+                else:
+                    if got != [300] or not closed or esc or sum(1 for e in log if e[0] == "sess_close") != 1:
+                        ck.violation(f"rawsocket.{fw}.{role}/protocol-violation/{label}",
+                                     f"{fw} RawSocket {role} ({ser}): payload that decodes to {label} between two valid messages: "
+                                     f"session got {got} (expected [300]), transport calls {closed}, escaped {esc}", rep, True)
+                rs_cases.append("(%d,%d,%s,16777216,false,[Batch [(300,ROk)];classify (%s) 350 ROk;Batch [(399,ROk)]],[%s;ILost false],%s)" % (
+                    0 if fw == "tx" else 1, 0 if role == "server" else 1, nlist([rsid]), raw,
+                    ";".join("IData %s" % nlist(c) for c in [hs] + ([frames[0], frames[1]] if closed else frames)), canon_log(log, fw)))
+        # ---- WebSocket, every framework x role as receiver ----
+        binflag = BINARY[ser]
+        si = ("json", "msgpack", "cbor").index(ser)
+        for pi, (cfw, sfw) in enumerate(PAIRINGS[:2]):
+            dc, ds = drv[cfw], drv[sfw]
+            for di, direction in enumerate(("c2s", "s2c")):
+                for k, (label, payload, raw) in enumerate(items):
+                    if ck.quick() and (k + si + pi + di) % 2:        # quick: each shape on two of the four receivers per serializer
+                        continue
+                    fbd = (k % 5 == 4)
+                    tag = f"M{cfw}{ser}{direction}{k}"
+                    ws_handshake(dc, ds, tag, [ser], [ser], options={"failByDrop": fbd})
+                    snd, sname, rcv, rname, rfw, rrole = ((dc, "c" + tag, ds, "s" + tag, sfw, "server") if direction == "c2s"
+                                                         else (ds, "s" + tag, dc, "c" + tag, cfw, "client"))
+                    wire = b""
+                    for pl in (p300, payload, p399):
+                        wire += relay(snd(op="ws_raw", ep=sname, payload=pl.hex(), binary=binflag)["log"])
+                    burst = (k % 2 == 0)
+                    ro = rcv(op="feed", ep=rname, chunks=[wire[:7].hex(), wire[7:].hex()], env_stop=True, burst=burst)
+                    lo = rcv(op="lost", ep=rname, clean=False)
+                    log = ro["log"] + lo["log"]
+                    n_eval += 1
+                    got = [e[1] for e in log if e[0] == "sess_msg"]
+                    codes = close_codes(None, relay(ro["log"]))
+                    dropped = any(e[0] in ("abort", "lose") for e in ro["log"])
+                    esc = [e for e in log if e[0] == "escaped"]
+                    closes = sum(1 for e in log if e[0] == "sess_close")
+                    ck.bump(f"malformed/ws/{rfw}.{rrole}/{label}")
+                    rep = dict(kind="ws-malformed", client=cfw, server=sfw, ser=ser, label=label, direction=direction, failByDrop=fbd,
+                               burst=burst, payload=payload.hex(), chunks=[wire[:7].hex(), wire[7:].hex()], got=got, codes=codes, log=log[-10:])
+                    if label.startswith("control"):
+                        if got != [300, 350, 399] or codes or dropped or esc:
+                            ck.violation(f"websocket.{rfw}.{rrole}/valid-stream-closed", f"valid messages: delivered {got}, codes {codes}", rep, True)
+                        ins = "WOpen false;" + ";".join("WMessage %s (Batch [(%d,ROk)])" % (cbool(binflag), i) for i in (300, 350, 399)) + ";WClose false"
+                        ws_cases.append("(%s,[%s],[(3,[]);(4,[300]);(4,[350]);(4,[399]);(5,[0])])" % (cbool(binflag), ins))
+                        continue
+                    ok = got == [300] and not esc and closes == 1 and ((dropped and not codes) if fbd else codes == [1002])
+                    if not ok:
+                        ck.violation(f"websocket.{rfw}.{rrole}/protocol-violation/{label}",
+                                     f"{rfw} WAMP-over-WebSocket {rrole} ({ser}): payload that decodes to {label} between two valid "
+                                     f"messages: session got {got} (expected [300]), close frames {codes} (expected "
+                                     f"{'none, connection dropped' if fbd else '[1002]'}), escaped {esc}", rep, True)
+                    if not fbd:
+                        exp = ["(3,[])"] + ["(4,[%s])" % g for g in got if g is not None] + ["(8,[%d])" % c for c in (codes or []) if c] + ["(5,[0])"]
+                        ws_cases.append("(%s,[WOpen false;WMessage %s (Batch [(300,ROk)]);WMessage %s (classify (%s) 350 ROk);WClose false],[%s])" % (
+                            cbool(binflag), cbool(binflag), cbool(binflag), raw, ";".join(exp)))
+                    dc(op="drop", ep="c" + tag); ds(op="drop", ep="s" + tag)
+    ck.evaluations += n_eval
+    ck.note_cases(0, rs_cases + ws_cases)
+    ck.log(f"decodable-but-not-WAMP payloads: {n_eval} conversations ({len(MALFORMED)} shapes x serializers x transports x frameworks x roles)")
+    return rs_cases, ws_cases
 
 
 def run_conns(ck):
@@ -1141,7 +1283,7 @@ def run(ck):
                    "Twisted receive limits 2^9..2^16, messages of serialized length limit-1/limit/limit+1 (thorough: 16 MiB boundary), "
                    "random segmentations; WebSocket: every ordered subset (quick: <= 3 of json/msgpack/cbor + batched samples; thorough: "
                    "all orders of 4 ids) on both sides through real opening handshakes in all four pairings, foreign protocol lists, "
-                   "delivery shape (several reads within one event-loop iteration vs one read per iteration) x cut positions x direction; message flow and corruption (flipped frame type, garbage, truncated, ProtocolError / other exception in session "
+                   "protocol violations: payloads that decode (independent json/msgpack/cbor2 encoders) but are not WAMP messages - type code of every kind (bool, float, string, null, list, dict, negative, zero, unknown, huge), not a list, empty list, fields the class rejects - between two valid messages, every serializer x RawSocket/WebSocket x framework x role; delivery shape (several reads within one event-loop iteration vs one read per iteration) x cut positions x direction; message flow and corruption (flipped frame type, garbage, truncated, ProtocolError / other exception in session "
                    "code) at every position, failByDrop on/off; non-trivial = the case reached the handshake decision / frame loop / "
                    "negotiation; distinct = distinct canonical model case")
     ck.extra_tb += [
@@ -1185,9 +1327,11 @@ def run(ck):
         srv_cases, cl_cases = run_ws_negotiation(ck, drv)
         ws_cases = run_ws_flow(ck, drv)
         run_ws_shapes(ck, drv)
+        mal_rs, mal_ws = run_malformed(ck, drv)
+        cn_cases += mal_rs
         api_rs, api_ws = run_api(ck, drv)
         cn_cases += api_rs
-        ws_cases += api_ws
+        ws_cases += api_ws + mal_ws
     finally:
         for d in drv.values():
             d.close()
@@ -1291,6 +1435,21 @@ def replay(path):
             print(f"a {L}-octet message (announced {a}):", lg)
             return 1 if (L <= a) != any(e[0] == "sess_msg" for e in lg) else 0
         return 1 if o[-1]["state"]["max_recv"] != a else 0
+    if kind == "ws-malformed":
+        drv = {fw: Drv(fw) for fw in FWS}
+        try:
+            dc, ds = drv[r["client"]], drv[r["server"]]
+            ws_handshake(dc, ds, "R", [r["ser"]], [r["ser"]], options={"failByDrop": r["failByDrop"]})
+            rcv, rname = (ds, "sR") if r["direction"] == "c2s" else (dc, "cR")
+            ro = rcv(op="feed", ep=rname, chunks=r["chunks"], env_stop=True, burst=r["burst"])
+            got = [e[1] for e in ro["log"] if e[0] == "sess_msg"]
+            codes = close_codes(None, relay(ro["log"]))
+            print(f"payload {r['payload']} ({r['label']}, {r['ser']}) between two valid messages: session got {got}, close frames {codes}, "
+                  f"dropped {any(e[0] in ('abort', 'lose') for e in ro['log'])}")
+            return 0 if got == [300] else 1
+        finally:
+            for d in drv.values():
+                d.close()
     if kind == "ws-shape":
         drv = {fw: Drv(fw) for fw in FWS}
         try:
